@@ -93,6 +93,14 @@ class ErrDomain:
             if k == "__failed":
                 out[k] = a.get(k) or b.get(k)
                 continue
+            if k == "__ffacts":
+                # facts that hold on every *failed* path reaching this point
+                fa, fb = a.get("__failed"), b.get("__failed")
+                if fa and fb:
+                    out[k] = a.get(k, frozenset()) & b.get(k, frozenset())
+                else:
+                    out[k] = a.get(k, frozenset()) if fa else b.get(k, frozenset())
+                continue
             va, vb = a.get(k), b.get(k)
             if va == vb:
                 out[k] = va
@@ -117,6 +125,10 @@ class ErrDomain:
         if fs and name:
             pat = re.compile(r"(?<![A-Za-z0-9_])%s(?![A-Za-z0-9_])" % re.escape(name))
             s["__facts"] = frozenset(f for f in fs if not pat.search(f))
+        ff = s.get("__ffacts")
+        if ff and name:
+            pat = re.compile(r"(?<![A-Za-z0-9_])%s(?![A-Za-z0-9_])" % re.escape(name))
+            s["__ffacts"] = frozenset(f for f in ff if not pat.search(f))
 
     def widen(self, old, new):
         return new
@@ -358,16 +370,42 @@ class ErrDomain:
                 s["c:%s" % id(u.node)] = st
             if failed:
                 s["__failed"] = (u.callee, loc_str(u.node))
+                s["__ffacts"] = s.get("__facts", frozenset())
             return s
         txt = expr_str(e)
+        # relational atoms in one canonical orientation: a >= b is !(a < b), a > b is b < a, a <= b is !(b < a), a != b is !(a == b)
+        e0 = strip(e)
+        if e0.get("kind") == "BinaryOperator" and e0.get("opcode") in ("<", "<=", ">", ">=", "!="):
+            a, b = expr_str(strip(kids(e0)[0], casts=True)), expr_str(strip(kids(e0)[1], casts=True))
+            op = e0["opcode"]
+            if op == "<":
+                txt = "%s < %s" % (a, b)
+            elif op == ">":
+                txt = "%s < %s" % (b, a)
+            elif op == ">=":
+                txt, truth = "%s < %s" % (a, b), not truth
+            elif op == "<=":
+                txt, truth = "%s < %s" % (b, a), not truth
+            elif op == "!=":
+                txt, truth = "%s == %s" % (a, b), not truth
+        elif e0.get("kind") == "BinaryOperator" and e0.get("opcode") == "==":
+            txt = "%s == %s" % (expr_str(strip(kids(e0)[0], casts=True)), expr_str(strip(kids(e0)[1], casts=True)))
         fs = s.get("__facts", frozenset())
         neg = "!(" + txt + ")"
         if truth and neg in fs:
             return None
         if not truth and txt in fs:
             return None
+        # a branch no failed path can take: the state beyond it is not a failed one
+        if s.get("__failed"):
+            ff = s.get("__ffacts", frozenset())
+            if (truth and neg in ff) or (not truth and txt in ff):
+                s.pop("__failed", None)
+                s.pop("__ffacts", None)
         if not any(c.get("kind") == "CallExpr" for c in walk(strip(e))):
             s["__facts"] = fs | {txt if truth else neg}
+            if s.get("__failed"):
+                s["__ffacts"] = s.get("__ffacts", frozenset()) | {txt if truth else neg}
         return s
 
     def _failed_when(self, u, op, other, truth, swapped):
